@@ -280,14 +280,15 @@ def run(chk, ctx):
     chk.ob('C11.S', 'switch read site', reads_in_body and not in_defaults,
            'table_integer reads the global by name in its body',
            site='pamqp/encode.py')
-    deco = []
-    for short in sorted(ladder_funcs | {'encode.encode_table_value',
-                                        'encode.field_table',
-                                        'encode.field_array'}):
-        fi_ = prog.functions.get('pamqp.' + short)
-        if fi_ is not None and fi_.node.decorator_list:
-            deco.append('%s: %s' % (short, ', '.join(
-                ast.unparse(d) for d in fi_.node.decorator_list)))
+    from .. import models as _models
+    lf = [prog.functions.get('pamqp.' + short) for short in sorted(
+        ladder_funcs | {'encode.encode_table_value', 'encode.field_table',
+                        'encode.field_array'})]
+    deco, unknown_deco = _models.wrappers(prog, [f for f in lf
+                                                 if f is not None])
+    if unknown_deco:
+        chk.undecide('C11.S', 'decorators without a model',
+                     '; '.join(unknown_deco[:3]))
     chk.ob('C11.S', 'ladder functions undecorated', not deco,
            'the switch is consulted on every call: no wrapper (cache, '
            'memo) sits in front of the ladder' if not deco else
